@@ -167,11 +167,19 @@ def mapping_for(fnode, refdesc):
             for x, y in zip(cn, rn):
                 votes.setdefault(x, {}).setdefault(y, 0)
                 votes[x][y] += 1
+    # a renaming is believed only if most statements that mention the name say so: in a restructured function a
+    # single accidental fingerprint match (`yield _`) must not rename a new temporary into a reference variable
+    occurrences = {}
+    for fp, names in cur:
+        for x in set(names):
+            occurrences[x] = occurrences.get(x, 0) + 1
     mapping = {}
     for x, d in votes.items():
         best = sorted(d.items(), key=lambda t: (-t[1], t[0]))
         if len(best) > 1 and best[0][1] == best[1][1]:
             continue  # ambiguous
+        if 2 * best[0][1] < occurrences.get(x, 1):
+            continue  # too little evidence
         mapping[x] = best[0][0]
     # injective: drop weaker claims on the same reference name
     by_ref = {}
